@@ -294,6 +294,11 @@ const NONASCII: &[char] = &[
 // code points that join the preceding / following one into a single extended grapheme cluster (combining marks, variation
 // selector, zero width joiner, Hangul jamo, regional indicators, a prepend character)
 const JOINING: &[char] = &['\u{301}', '\u{308}', '\u{fe0f}', '\u{200d}', '\u{1100}', '\u{1161}', '\u{11a8}', '\u{1f1e6}', '\u{1f1fa}', '\u{600}', '\u{1f468}'];
+// characters whose code point equals a syntax character (space, backslash, the markers) when truncated to 8 or 16 bits
+const SYNTAX_ALIASES: &[char] = &[
+    '\u{420}', '\u{4f20}', '\u{1f420}', '\u{10020}', '\u{45c}', '\u{5c5c}', '\u{1005c}', '\u{421}', '\u{10021}', '\u{45e}', '\u{1f45e}', '\u{427}',
+    '\u{10027}', '\u{424}', '\u{1f424}', '\u{120}', '\u{15c}', '\u{409}', '\u{40a}', '\u{1000a}',
+];
 const UNCASED: &[char] = &['\u{3042}', '\u{4e2d}', '\u{5d1}'];
 // every White_Space code point (the splitter is documented in terms of char::is_whitespace)
 const SPACES: &[char] = &[
@@ -313,6 +318,8 @@ fn gen_pattern(rng: &mut Rng, allow_nonascii: bool) -> String {
             _ => {
                 if allow_nonascii && rng.chance(1, 3) {
                     *rng.pick(JOINING)
+                } else if allow_nonascii && rng.chance(1, 3) {
+                    *rng.pick(SYNTAX_ALIASES)
                 } else if allow_nonascii {
                     *rng.pick(NONASCII)
                 } else {
@@ -589,6 +596,9 @@ pub fn run(opts: &Opts, rep: &mut Report) {
                     t.push(c);
                     if nonascii && rng.chance(1, 5) {
                         t.push(*rng.pick(JOINING));
+                    }
+                    if nonascii && rng.chance(1, 6) {
+                        t.push(*rng.pick(SYNTAX_ALIASES));
                     }
                 }
                 let esc = escape_literal(&t);
